@@ -18,31 +18,31 @@ CLAIMED = {
     "C13": dict(
         category="fault_enumeration",
         technique="deviation-bounded fault enumeration: all valid streams up to length 3/4 over 8 frames x all placements of d = 0,1,2(,3) junk lines from a 16-symbol alphabet, file source and scripted TCP peer, on the real reader thread; oracle = table equality with the clean stream",
-        text="Valid streams (all sequences up to length 3, 4 in thorough, over 8 frames of two aircraft, plus three recorded excerpts) are perturbed by inserting junk lines (empty, CR, wrong digit counts, truncated frame, text, NUL, invalid UTF-8 of four kinds, 70 KiB lines, bad-parity frame) at every combination of positions with d = 0, 1, 2 deviations (3 in thorough); the table must equal the clean stream's table bit for bit and the reader must end Ok. The TCP source is exercised with a scripted loopback peer for streams up to length 2 with d <= 1.",
+        text="Valid streams (all sequences up to length 3, 4 in thorough, over 8 frames of two aircraft, plus three recorded excerpts) are perturbed by inserting junk lines (empty, CR, wrong digit counts, truncated frame, text, NUL, invalid UTF-8 of four kinds, 70 KiB lines, bad-parity frame) at every combination of positions with d = 0, 1, 2 deviations (3 in thorough); the table must equal the clean stream's table bit for bit and the reader must end Ok; a 26-frame stream under -d 0 (two sweeps) checks that junk does not shift the sweep cadence, and junk lines of exactly / just below / just above buffer sizes (4 KiB..128 KiB, LF and CR LF) are inserted at every position. The TCP source is exercised with a scripted loopback peer for streams up to length 2 with d <= 1.",
         note="Trusted: frozen clock (so equal tables include equal time stamps). Junk outside the 16-symbol alphabet and more than 2 (3) insertions are not covered.",
         design="DESIGN.md §5 C13", engine="E3 fault enumeration"),
     "C14": dict(
         category="exploration",
         technique="bounded-exhaustive enumeration of all 32 -i subsets (3 spellings) x ~220 row states covering every column blank/min/max/typical/negative/fractional, rendered by the real Planes::print and the real CLI, against an independent column/cell oracle",
-        text="For every subset of the five column groups and every row state of a catalogue that puts each printable field through blank, minimum, largest-fitting, typical, negative and fractional values (with the other fields all blank and all filled), the real print routine is run with stdout captured; the header must list exactly the groups requested, row/header/separator must have equal display width whenever all values fit, and cutting the row at the header's column boundaries must give, per column, that parameter's value (numbers parsed back, right-aligned; text exact, left-aligned; blank when unknown). Tables reached by frames are checked the same way through the real release CLI with a frozen clock.",
+        text="For every subset of the five column groups and every row state of a catalogue that puts each printable field through blank, minimum, largest-fitting, typical, negative and fractional values (with the other fields all blank and all filled), the real print routine is run with stdout captured; the header must list exactly the groups requested, row/header/separator must have equal display width whenever all values fit, and cutting the row at the header's column boundaries must give, per column, that parameter's value (numbers parsed back, right-aligned; text exact, left-aligned; blank when unknown). Tables reached by frames are checked the same way through the real release CLI with a frozen clock, under all three spellings of -i; the catalogue includes the emergency squawks 7500/7600/7700.",
         note="Trusted: the independent column list per -i letter. One-character source markers in separator positions are not judged. Values that do not fit their column are excluded from the width rule (as stated).",
         design="DESIGN.md §5 C14", engine="E4 render + CLI seam"),
     "C15": dict(
         category="exploration",
         technique="bounded-exhaustive enumeration of all tables of 1..4(5) rows over 6 key-value classes (incl. blanks, ties, same-integer floats) x all -o strings of length <= 2(3) over 12 key letters, printed by the real Planes::print, permutation and monotonicity oracle",
-        text="Every table of up to 4 rows (5 thorough) whose sort-key field takes every combination of {blank, low, mid, tie, same-integer neighbour, high} is printed under every -o string up to length 2 (3 thorough) over the twelve key letters (plus '', 'x', 'sx'; as one -o and as repeated -o): the address column must be a permutation of the table, the last recognised key must be monotone over the rows where it is known, and without a recognised key the rows must be in ascending address order.",
+        text="Every table of up to 4 rows (5 thorough) whose sort-key field takes every combination of {blank, low, mid, tie, same-integer neighbour, high} is printed under every -o string up to length 2 (3 thorough) over the twelve key letters (plus '', 'x', 'sx'; as one -o and as repeated -o): the address column must be a permutation of the table, the last recognised key must be monotone over the rows where it is known, and without a recognised key the rows must be in ascending address order; consecutive prints use different address sets, and three 40-frame streams drawn after every frame must list, at every refresh, exactly the table of that moment.",
         note="Trusted: direction is judged only where the statement gives it (s, a ascending, A descending); v/V, N/S, W/E, d/D, c may be monotone either way.",
         design="DESIGN.md §5 C15", engine="E4 render"),
     "C18": dict(
         category="fault_enumeration",
         technique="fault-sequence enumeration: every script of length <= 4 (5) over seven TCP peer behaviours (incl. a connection that stays healthy for 6 s of virtual monotonic time and long non-UTF-8 junk), run against the real reader thread with a scripted loopback peer and a gated sleep, oracle = liveness, one 5 s pause per failed attempt, final table equal to the file source's",
-        text="Every sequence up to length 4 (2,801 scripts; 5 in thorough: 19,608) over {refuse, accept+close, accept+frames+close, accept+partial line+reset, accept+junk+close, accept+frames+healthy for 6 s+close, accept+long non-UTF-8 junk+close}, followed by a healthy connection, is played by a scripted loopback peer against the real TCP reader; the interposed sleep records every pause and blocks until the script releases it, so each attempt is a sequenced event. The reader must stay alive, pause exactly once for about 5 s after each failed attempt, and end with the table the file source produces from the same lines (every aircraft learned earlier still present); the partial line is varied over all 27 prefix lengths. Thorough repeats the length-1 scripts against the real CLI with real pauses.",
+        text="Every sequence up to length 4 (2,801 scripts; 5 in thorough: 19,608) over {refuse, accept+close, accept+frames+close, accept+partial line+reset, accept+junk+close, accept+frames+healthy for 6 s+close, accept+long non-UTF-8 junk+close}, followed by a healthy connection, is played by a scripted loopback peer against the real TCP reader; the interposed sleep records every pause and blocks until the script releases it, so each attempt is a sequenced event. The reader must stay alive, pause exactly once for about 5 s after each failed attempt, and end with the table the file source produces from the same lines (every aircraft learned earlier still present); the partial line is varied over all 27 prefix lengths; five scripts really pause 1.3 s / 2.6 s in the middle of a line; every script up to length 2 is repeated under -d 0, -d 1, -U -R and with the table drawn after every frame. Thorough repeats the length-1 scripts against the real CLI with real pauses.",
         note="Trusted: clock_nanosleep and CLOCK_MONOTONIC interposition (self-tested at start-up); elapsed time inside the TCP loop is virtual. Real network timing below the granularity connect/accept/send/close/reset is not explored; a partial line may or may not reach the reader before the reset (both admitted).",
         design="DESIGN.md §5 C18", engine="E3 fault enumeration"),
     "C10": dict(
         category="model_checking",
         technique="explicit-state search of the Comm-B gating machine (28 actions, all orders to depth 4/5 x 4 option sets, each transition on the real reader thread) + exhaustive one-field-at-a-time register sweeps, against a reference gate/validity/Doc 9871 decoder",
-        text="Model GATE explores every order of capability reports (DF11 CA 0/3/4/5/7, DF17), BDS 1,7 advertisements (five subsets, one with a reserved bit) and data replies (2,0; 3,0 x3; valid 4,0; 5,0 right/left turn; 6,0 climb/descent; 5,0 with a status bit clear; 4,0 with a reserved bit) for one aircraft plus a bystander, to depth 4 (5 thorough) under {default,-R,-U,-U -R}; on every transition each MB-derived field group may change only if the reference gate of the pre-state and the register's validity allow it and must then equal the reference decoding; plausible registers must be decoded. The register sweeps run every value field of 4,0/5,0/6,0 over its whole range around three baselines, all 32 status-bit subsets, every reserved bit, BDS 1,7 words, under open and closed gates (and the full GS x TAS product in thorough).",
+        text="Model GATE explores every order of capability reports (DF11 CA 0/3/4/5/7, DF17), BDS 1,7 advertisements (five subsets, one with a reserved bit) and data replies (2,0; 3,0 x3; valid 4,0; 5,0 right/left turn; 6,0 climb/descent; 5,0 with a status bit clear; 4,0 with a reserved bit) for one aircraft plus a bystander, to depth 4 (5 thorough) under {default,-R,-U,-U -R}; on every transition each MB-derived field group may change only if the reference gate of the pre-state and the register's validity allow it and must then equal the reference decoding; plausible registers must be decoded. Continuous-run conformance holds at the leaves. The register sweeps run every value field of 4,0/5,0/6,0 over its whole range around three baselines, a grid of registers valid in both the 5,0 and the 6,0 layout, all 32 status-bit subsets, every reserved bit, BDS 1,7 words, under open and closed gates (and the full GS x TAS product in thorough).",
         note="Trusted: refmodel/bds.rs (layouts of DESIGN App. B). Admissible sets: floor or truncation for signed scaled values; BDS 4,0 mode/source status unconstrained in the only-if direction; lenient branch when weak/strong validity of an earlier register disagree. Products of more than one field away from a baseline are not covered (except GS x TAS).",
         design="DESIGN.md §5 C10", engine="E2 explorer + E1 sweep"),
     "C19": dict(
@@ -72,25 +72,25 @@ CLAIMED = {
     "C12": dict(
         category="model_checking",
         technique="explicit-state search of model EXPIRY (160 parameter sets x 7-8 actions incl. burst and ticks at delete_after +-1 ms, depth 6/8) on the real reader thread with the true last-heard ages as history variable",
-        text="For delete_after in {1,5,60,600}, default/-U, ten refreshing formats and with/without -f, every sequence of {frame of A, burst of 12 frames of B (forces the sweep), one frame of B, filtered-out frame, silences of 1 s / d-1 ms / d / d+1 ms} to depth 6 (8 thorough) is executed; after every step: an accepted frame puts its aircraft in the table with age 0, an aircraft heard < d s ago is present, after a burst no aircraft silent >= d s remains, a frame from a swept aircraft yields exactly the row it yields in an empty table, and the size bound holds.",
+        text="For delete_after in {1,5,60,600}, default/-U, ten refreshing formats and with/without -f, every sequence of {frame of A, burst of 12 frames of B (forces the sweep), one frame of B, filtered-out frame, silences of 1 s / d-1 ms / d / d+1 ms} to depth 6 (8 thorough) is executed; after every step: an accepted frame puts its aircraft in the table with age 0, an aircraft heard < d s ago is present, after a burst no aircraft silent >= d s remains, a frame from a swept aircraft yields exactly the row it yields in an empty table, and the size bound holds; twelve parameter sets run with the table drawn after every frame.",
         note="Trusted: time is simulated by shifting every public time stamp under the frozen clock (exact millisecond ages). The per-run sweep counter starts at 0, so 'at most 12 further frames' is checked as a 12-frame burst.",
         design="DESIGN.md §5 C12", engine="E2 explorer"),
     "C05": dict(
         category="exploration",
         technique="complete-domain enumeration: all 2^13 AC13 codes (DF4, DF20) and all 2^12 AC12 codes x TC 9..18 x paths x option sets through the real reader thread vs an independent Q-bit/Gillham decoder",
-        text="Every altitude code of every format that carries one is executed through the real reader thread, as first frame and as update of a row holding a sentinel altitude, under {default,-U,-R,-U -R} and two/three settings of the other payload bits, and compared with an independent decoder (Q=1 formula; Gillham validated by round trip against a separately written encoder). The domain is finite, so enumeration decides it. Q=0 (Gillham) is a recorded known finding keyed by the explicit set of failing AC13 codes / the closed predicate Q=0 for AC12.",
+        text="Every altitude code of every format that carries one is executed through the real reader thread, as first frame and as update of a row holding a sentinel altitude, under {default,-U,-R,-U -R} and two/three settings of the other payload bits, with rows of six provenances (DF11 CA5 / CA0, sentinel only, DF21, after a surface squitter), and compared with an independent decoder (Q=1 formula; Gillham validated by round trip against a separately written encoder). The domain is finite, so enumeration decides it. Q=0 (Gillham) is a recorded known finding keyed by the explicit set of failing AC13 codes / the closed predicate Q=0 for AC12.",
         note="Trusted: reference decoder refmodel/fields.rs (self-validated at start-up). M=1 codes are skipped (unconstrained); a DF20 creating the row may contribute the address only.",
         design="DESIGN.md §5 C05, §6 D12", engine="E1 sweep"),
     "C09": dict(
         category="exploration",
         technique="bounded-exhaustive (quick) / complete-domain (thorough: all 2x1024x2x1024 x 2 subtypes) enumeration of TC19 codes through the real reader thread on both update paths and four option sets vs an independent velocity decoder",
-        text="Velocity codes (quick: the cross of all E/W values x 10 N/S magnitudes x both signs and vice versa; thorough: the full 2x1024x2x1024 product, both subtypes) and all 2x512 vertical-rate codes are executed as first and as n-th frame under {default,-U,-R,-U -R}; every observation is compared with the reference and the eight observations of a code with each other.",
+        text="Velocity codes (quick: the cross of all E/W values x 10 N/S magnitudes x both signs and vice versa; thorough: the full 2x1024x2x1024 product, both subtypes) and all 2x512 vertical-rate codes are executed as first and as n-th frame under {default,-U,-R,-U -R}; every observation is compared with the reference and the eight observations of a code with each other; a context family varies the squitter's CA field 0..7, the GNSS/baro difference and a low barometric altitude already in the row.",
         note="Trusted: reference velocity/vertical-rate decoder; admissible set for floor(atan2) at exact integer angles (1e-9 deg) and 4-kt band for the supersonic subtype.",
         design="DESIGN.md §5 C09", engine="E1 sweep"),
     "C02": dict(
         category="exploration",
         technique="bounded-exhaustive input enumeration on the real reader thread: all digit counts 0..64, all 32 DF x both lengths, all single decoration insertions, against an independent acceptance rule",
-        text="Every digit count 0..64, every DF value at both frame lengths (with and without the 12-digit prefix) and every single insertion of each decoration symbol at every position are executed as one-line runs of the real reader thread on an empty and a populated table; acceptance is compared with an independently written rule, decorated lines with their bare digit strings (bit-identical tables). This enumerates exactly the finite families the property quantifies over; longer decorations are covered pairwise in the thorough tier.",
+        text="Every digit count 0..64, every DF value at both frame lengths (with and without the 12-digit prefix) and every single insertion of each decoration symbol at every position are executed as one-line runs of the real reader thread on an empty and a populated table; acceptance is compared with an independently written rule, decorated lines with their bare digit strings (bit-identical tables); every non-hex ASCII character is used as decoration and as leading framing symbol in front of every digit count; a table holding a long-silent aircraft that is redrawn after every line must survive 80 non-frame lines untouched. This enumerates exactly the finite families the property quantifies over; longer decorations are covered pairwise in the thorough tier.",
         note="Trusted: reference acceptance rule (refmodel/accept.rs) and CRC-24 encoder (validated against the repository's pinned frames). DFs outside the nine supported formats are only judged for no-crash, invariance and length agreement.",
         design="DESIGN.md §5 C02", engine="E1 sweep"),
     "C04": dict(
@@ -108,13 +108,13 @@ CLAIMED = {
     "C16": dict(
         category="model_checking",
         technique="explicit enumeration of all input sequences up to depth 4/5 over a 15-symbol alphabet x 15 filter sets, every prefix observed on the real reader's stdout, against a reference counter fold; CLI trace conformance",
-        text="All sequences of length 4 (5 in thorough) over a 15-symbol alphabet (one accepted frame of each DF, a second aircraft, zero address, bad parity, junk) under 15 filter sets (multi-format lists given in non-ascending order) are run through the real reader thread with --update=-1 -c, so every prefix prints its counter line; each line is compared with a reference fold, refresh counts with accepted filter-passing frames, and the -f table with the table of the filtered sub-stream. All sequences up to length 3 are also run through the real release CLI and compared byte for byte.",
+        text="All sequences of length 4 (5 in thorough) over a 15-symbol alphabet (one accepted frame of each DF, a second aircraft, zero address, bad parity, junk) under 15 filter sets (multi-format lists given in non-ascending order) are run through the real reader thread with --update=-1 -c, so every prefix prints its counter line; each line is compared with a reference fold, refresh counts with accepted filter-passing frames, and the -f table with the table of the filtered sub-stream. On a 30 s old table every rejected or filtered-out line must leave the table bit-identical. All sequences up to length 3 are also run through the real release CLI and compared byte for byte.",
         note="Trusted: which alphabet symbols are accepted frames is known by construction (frames built with the reference CRC). DF24 counts under its own DF; its address reading is not judged.",
         design="DESIGN.md §5 C16", engine="E2-style sequence enumeration"),
     "C17": dict(
         category="exploration",
         technique="bounded-exhaustive enumeration: complete 2^24 address domain executed on the real constructor and reader thread, compared with an independent allocation table",
-        text="Complete-domain enumeration: every one of the 16,777,216 addresses is pushed through the real Plane constructor, and every block boundary +-1 plus a stride through the real reader thread and CLI; the verdict is a comparison with an independently transcribed Annex 10 block table. The domain is finite and small, so exhaustive execution decides the property outright.",
+        text="Complete-domain enumeration: every one of the 16,777,216 addresses is pushed through the real Plane constructor, and every block boundary +-1 plus a stride (thorough: every address) through the real reader thread; the registration must also stay put under -U/-R and after frames of every format (DF18 with every CF) for both ends of every block; the verdict is a comparison with an independently transcribed Annex 10 block table. The domain is finite and small, so exhaustive execution decides the property outright.",
         note="Trusted: the transcription of the Annex 10 blocks in DESIGN App. A (self-checked for disjointness and alignment at start-up).",
         design="DESIGN.md §5 C17, §9",
         engine="E1 sweep",
